@@ -6,7 +6,7 @@ META = dict(
     technique="explicit-state BFS over explicit/automatic creations, registry clears, house and frame-registry switches and framer clones on the real registrar classes vs a reference namespace model; random.randint of the collision loop is a choice point",
     text="Histories over: create House / Store / Tasker / Framer / Logger / Log / Frame with an explicit name (plain names and names matching the automatic "
          "pattern such as Tasker2, Tasker3, Tasker3a) or an automatic name, Clear of each root registry and ClearRegistries, House.assignRegistries of each house, "
-         "Framer.assignFrameRegistry, Framer.clone.  ioflo.base.registering.random is replaced by a harness object, so every answer of the automatic-name collision loop "
+         "Framer.assignFrameRegistry, Framer.clone, Framer.prune.  ioflo.base.registering.random is replaced by a harness object, so every answer of the automatic-name collision loop "
          "(letters a/b for up to three draws) is enumerated.  After every operation all registries (class-level, per house, per framer) are compared with a reference "
          "model of namespaces: explicit duplicates rejected with nothing changed, automatic names fresh, instances land in the namespace that is current and nowhere else.",
     note="Clear() is read as 'start a fresh class-level namespace' (it rebinds, a house keeps its own registry). A second family builds generated FloScript programs "
@@ -240,6 +240,14 @@ class Run:
                 for key in ("store", "tasker", "log"):
                     m.cur[key] = ("H", hi, key)
                 self.insts[hi].assignRegistries()
+            elif kind == "prune":
+                # Framer.prune() (what the Razer actor calls): the framer dies; its name is released in the CURRENT tasker
+                # namespace only if that namespace holds this very instance under the name
+                fi = op[1]
+                cur = m.ns[m.cur["tasker"]]
+                if cur.get(m.names[fi]) == fi:
+                    del cur[m.names[fi]]
+                self.insts[fi].prune()
             elif kind == "assignframe":
                 fi = op[1]
                 m.cur["frame"] = ("F", fi)
@@ -369,6 +377,8 @@ def op_str(op):
         return "framer#%d.assignFrameRegistry()" % op[1]
     if k == "clone":
         return "framer#%d.clone(%r)" % (op[1], op[2])
+    if k == "prune":
+        return "framer#%d.prune()" % op[1]
     return repr(op)
 
 
@@ -405,6 +415,7 @@ def base_ops(run, final=False):
             for n in EXPL["Framer"]:
                 ops.append(("new", "Framer", n, hi, ()))
     for fi in run.framers:
+        ops.append(("prune", fi))
         if not final:
             ops.append(("assignframe", fi))
         if len(run.framers) < MAX_FRAMERS + 1:
@@ -461,12 +472,35 @@ def focused_ops(run, final=False):
     return ops
 
 
+# third family: two houses that each own a live framer of the same name (as two houses rearing the same clone name do)
+TWIN_PRELOAD = [("new", "House", "h", None, ()), ("new", "House", "g", None, ()), ("assign", 0), ("new", "Framer", "f", 0, ()),
+                ("assign", 2), ("new", "Framer", "f", 2, ())]
+TWIN_DEPTH = 3 if QUICK else 4
+
+
+def twin_ops(run, final=False):
+    """house#0 and house#2 each hold a framer f; house#2 is current.  Switch houses, prune (raze) either framer, then try
+    explicit duplicates of the name in either house."""
+    ops = []
+    for hi in run.houses:
+        ops.append(("assign", hi))
+    for fi in run.framers[:2]:
+        ops.append(("prune", fi))
+    if len(run.framers) < 4:
+        for hi in run.houses:
+            ops.append(("new", "Framer", "f", hi, ()))
+    ops.append(("new", "Tasker", "f", None, ()))
+    return ops
+
+
 def work(arg):
     family, first = arg
     core.use_repo()
     p = core.Part()
     if family == "gen":
         h0, depth, opsfn = [first], MAX_DEPTH, base_ops
+    elif family == "twin":
+        h0, depth, opsfn = TWIN_PRELOAD + [first], TWIN_DEPTH - 1, twin_ops
     else:
         h0, depth, opsfn = FOCUS_PRELOAD + [first], FOCUS_DEPTH - 1, focused_ops
 
@@ -696,7 +730,10 @@ def run():
     ffirsts = []
     for op in focused_ops(pre):
         ffirsts.extend(expand_random(FOCUS_PRELOAD, op, counters))
-    items = [("gen", f) for f in firsts] + [("focus", f) for f in ffirsts]
+    twin = Run(TWIN_PRELOAD)
+    if twin.diverged:
+        raise core.BrokenCheck("twin preload diverges: %r" % (twin.diverged,))
+    items = [("gen", f) for f in firsts] + [("focus", f) for f in ffirsts] + [("twin", op) for op in twin_ops(twin)]
     parts = core.pmap(work, items, procs=min(core.NPROC, 8) if QUICK else None)
     best = {}
     for si, p in enumerate(parts):
@@ -728,9 +765,11 @@ def run():
     ck.merge(pparts)
     for v in sorted(pv, key=lambda v: (len(v[3].get("program", "")) if isinstance(v[3], dict) else 0, v[1])):
         ck.part.violation(*v)
-    ck.coverage_extra = dict(clone_chain_programs=len(chains), focused_family=dict(preload=hist_str(FOCUS_PRELOAD), operations_after_preload=FOCUS_DEPTH, shards=len(ffirsts)), all_outcomes=dict(sorted(ck.part.outcomes.items())), first_operations=len(firsts), max_depth_after_first=MAX_DEPTH, programs=len(grid),
+    ck.coverage_extra = dict(twin_family=dict(preload=hist_str(TWIN_PRELOAD), operations_after_preload=TWIN_DEPTH), clone_chain_programs=len(chains), focused_family=dict(preload=hist_str(FOCUS_PRELOAD), operations_after_preload=FOCUS_DEPTH, shards=len(ffirsts)), all_outcomes=dict(sorted(ck.part.outcomes.items())), first_operations=len(firsts), max_depth_after_first=MAX_DEPTH, programs=len(grid),
                              explicit_names=EXPL, randint_draws_enumerated=RCAP, randint_answers=[0, 1])
     ck.assumptions = [
+        "Framer.prune() ends the framer's life; it releases the name only in the tasker namespace that is current and only if that namespace holds this very instance "
+        "(a same-named live framer of another house must stay registered)",
         "Clear() starts a fresh class-level namespace (it rebinds the class registry); a house's own registry is untouched and becomes current again on assignRegistries()",
         "the namespace of an instance is the one current when it is created (House: global; Store/Tasker/Framer/Logger/Log: class-level or the assigned house's; Frame: class-level or the assigned framer's)",
         "random.randint in the collision loop answers only 0 or 1 (letters a, b) for the first %d draws of a creation and 25 afterwards; all such answer sequences are enumerated" % RCAP,
@@ -743,10 +782,11 @@ def run():
              "(x every randint answer sequence), Clear x5, ClearRegistries, assignRegistries per house, assignFrameRegistry and clone per framer}; at most %d houses and %d framers (+1 clone); "
              "registries (contents by instance identity and which registry object is current) compared with the reference after every operation.  "
              "Second family: from 'house h current, owning tasker x, log x, framer f' every history of %d operations over {per-class Clear, ClearRegistries, "
-             "assignRegistries of the same house, Framer.clone, explicit-duplicate and automatic creations}.  Plus %d generated programs built through Builder, "
+             "assignRegistries of the same house, Framer.clone, explicit-duplicate and automatic creations}.  Third family: two houses each holding a live framer f; every history of %d operations over {assignRegistries of either house, prune() of either framer, "
+             "explicit duplicate Framer/Tasker f in either house}.  Plus %d generated programs built through Builder, "
              "plus %d clone-chain plans (2-3 root framers each cloning the same chain of 1..%d moot framers, insular or equally tagged; the build must succeed and all "
              "framer names of the house be distinct and registered to their own instance)."
-             % (len(firsts), MAX_DEPTH, MAX_HOUSES, MAX_FRAMERS, FOCUS_DEPTH, len(grid), len(chains), max(c[1] for c in chains)),
+             % (len(firsts), MAX_DEPTH, MAX_HOUSES, MAX_FRAMERS, FOCUS_DEPTH, TWIN_DEPTH, len(grid), len(chains), max(c[1] for c in chains)),
         exhaustive=False,
         explanation="complete for histories of at most %d operations over the stated alphabet; not a fixpoint" % (MAX_DEPTH + 1))
 
